@@ -39,7 +39,7 @@ DEFAULT_PROFILE = dict(
     shifts=(0.0, 0.0, 30.0, 150.0, -30.0, 180.0), tap_types=(None, "Ratio", "Symmetrical", "Ideal"),
     custom_index=True, sn_choices=(1.0, 1.0, 10.0, 100.0, 0.5, 1000.0),
     scaling=True, gen_qlims=True, line_g=True, line_parallel=True, df=True, leakage=True,
-    tap2=False, trafo_oltc_cols=False, gen_qlim_range=(0.02, 0.4), resistive_shunts=False,
+    tap2=False, trafo_oltc_cols=False, gen_qlim_range=(0.02, 0.4), resistive_shunts=False, slack_any_level=False,
 )
 
 
@@ -303,11 +303,13 @@ def grid(draw, p=None):
     used3w = False
     if len(levels) == 3 and p["trafo3w"] and draw(st.integers(0, 1)):
         used3w = True
-        h, m, l = (draw(st.sampled_from(level_buses[i])) for i in range(3))
-        d = draw(trafo3w_params(levels[0], levels[1], levels[2], LEVELS[levels[1]]["s"], LEVELS[levels[2]]["s"],
-                                -acc[1], -acc[2], p))
-        d.update(hv_bus=h, mv_bus=m, lv_bus=l)
-        el.append(d)
+        # sometimes two three-winding transformers (same shifts), so that result rows of several units exist
+        for _ in range(2 if draw(st.integers(0, 2)) == 0 else 1):
+            h, m, l = (draw(st.sampled_from(level_buses[i])) for i in range(3))
+            d = draw(trafo3w_params(levels[0], levels[1], levels[2], LEVELS[levels[1]]["s"], LEVELS[levels[2]]["s"],
+                                    -acc[1], -acc[2], p))
+            d.update(hv_bus=h, mv_bus=m, lv_bus=l)
+            el.append(d)
     for li in range(len(levels) - 1):
         n_tr = 0 if used3w and draw(st.integers(0, 2)) else 1
         if not used3w and p["trafo_parallel_pair"] and draw(st.integers(0, 4)) == 0:
@@ -324,11 +326,14 @@ def grid(draw, p=None):
 
     # slack(s)
     top = level_buses[0]
-    sb = draw(st.sampled_from(top))
-    if p["slack_gen"] and draw(st.integers(0, 4)) == 0:
+    sl = 0
+    if p.get("slack_any_level") and len(levels) > 1 and draw(st.integers(0, 2)) == 0:
+        sl = draw(st.integers(1, len(levels) - 1))      # network fed from a lower voltage level (step-up transformers)
+    sb = draw(st.sampled_from(level_buses[sl]))
+    if p["slack_gen"] and sl == 0 and draw(st.integers(0, 4)) == 0:
         el.append({"t": "gen", "bus": sb, "p_mw": 0.0, "vm_pu": draw(q(0.98, 1.04, nd=3)), "slack": True})
     else:
-        el.append({"t": "ext_grid", "bus": sb, "vm_pu": draw(q(0.98, 1.04, nd=3)), "va_degree": 0.0})
+        el.append({"t": "ext_grid", "bus": sb, "vm_pu": draw(q(0.98, 1.04, nd=3)), "va_degree": acc[sl]})
     if p["second_slack"] and draw(st.integers(0, 4 if p["second_slack"] is True else int(p["second_slack"]) - 1)) == 0:
         li = draw(st.integers(0, len(levels) - 1))
         b2 = draw(st.sampled_from(level_buses[li]))
